@@ -1,7 +1,8 @@
 (* C01 — property theorems.  Statements only: each is closed by [exact] of a lemma proved in
    coq/C01/, followed by Print Assumptions. *)
 From Coq Require Import QArith ZArith List Bool Permutation.
-From Scenic Require Import C01.Prob C01.ProbProofs C01.Sampler C01.Prior C01.SamplerProofs C01.RejectionProofs C01.ChoiceProofs C01.ReachProofs.
+From Scenic Require Import C01.Prob C01.ProbProofs C01.Sampler C01.Prior C01.SamplerProofs C01.RejectionProofs C01.ChoiceProofs C01.ReachProofs
+  C01.WfProofs C01.Capture C01.CaptureProofs.
 Import ListNotations.
 Open Scope Q_scope.
 
@@ -80,12 +81,32 @@ Theorem C01_rejection_exact : forall g deps,
 Proof. exact rejection_exact_u. Qed.
 Print Assumptions C01_rejection_exact.
 
+(* per-attempt rejection probability.  The well-formedness of the attempt's tree is no longer a
+   hypothesis: it is proved for every DAG whose weighted nodes carry non-decreasing cumulative weights
+   with a positive total ([good_dagb], computed on every exported DAG by the driver) *)
 Theorem C01_rejection_probability : forall g deps,
-  wf_dag g -> (forall d, In d deps -> (d < length g)%nat) ->
-  forall rs acts, wf_tree (attempt g deps rs acts) ->
-  rejmass (attempt g deps rs acts) == 1 - accept g deps rs acts.
-Proof. exact rejection_probability_u. Qed.
+  wf_dag g -> (forall d, In d deps -> (d < length g)%nat) -> good_dagb g = true ->
+  forall rs acts, rejmass (attempt g deps rs acts) == 1 - accept g deps rs acts.
+Proof. exact rejection_probability_good. Qed.
 Print Assumptions C01_rejection_probability.
+
+Theorem C01_generated_trees_wf : forall g deps rs n, good_dagb g = true -> wf_tree (generate_inner g deps rs n).
+Proof. exact wf_generate_inner. Qed.
+Print Assumptions C01_generated_trees_wf.
+
+(* the generator either returns a scene or raises RejectionException: total probability 1 *)
+Theorem C01_generate_total : forall g deps rs n, good_dagb g = true ->
+  expect (fun _ => 1) (generate_inner g deps rs n) + rejmass (generate_inner g deps rs n) == 1.
+Proof. exact generate_total. Qed.
+Print Assumptions C01_generate_total.
+
+(* P(a scene is returned within n attempts | enforcement pattern) = 1 - (1 - accept)^n *)
+Theorem C01_gives_up_probability : forall g deps,
+  wf_dag g -> (forall d, In d deps -> (d < length g)%nat) -> good_dagb g = true ->
+  forall rs acts n,
+  expect (fun _ => 1) (retry (attempt g deps rs acts) n 1) == 1 - qpow (1 - accept g deps rs acts) n.
+Proof. exact gives_up_probability. Qed.
+Print Assumptions C01_gives_up_probability.
 
 (* P(f | a scene is returned) = prior(f | enforced requirements), whatever the bound *)
 Theorem C01_returned_is_conditioned_prior : forall g deps,
@@ -107,6 +128,24 @@ Theorem C01_generate_mixture : forall g deps rs n (h : memo * nat -> Q),
   wsum (fun acts => act_prob rs acts * expect h (retry (attempt g deps rs acts) n 1)) (all_acts (length rs)).
 Proof. exact generate_mixture. Qed.
 Print Assumptions C01_generate_mixture.
+
+(* requirement capture (model of PendingRequirement.__init__/compile: save the bindings of the referenced
+   names when the statement runs; the closure rebinds them in the shared, never restored namespace before
+   evaluating): the requirement of  pre; require[p] c; post  is evaluated with every name standing for what
+   it was bound to after `pre` -- for every `post` (rebinding any name), every sample, every state [r] of the
+   run-time namespace (earlier closures' leftovers) *)
+Theorem C01_requirement_capture : forall pre p c post e m r d,
+  fst (closure (nth (count_reqs pre) (snd (run_stmts (pre ++ PRequire p c :: post) e)) d) m r) =
+  nceval (fun x => bval m (lookup (env_after pre e) x)) c.
+Proof. exact requirement_capture. Qed.
+Print Assumptions C01_requirement_capture.
+
+(* ... and the closures, run in order on the shared namespace, are exactly the checker of the sampler model
+   (conditions over the nodes bound at the statement), which the rejection theorems above are about *)
+Theorem C01_closures_are_model_reqs : forall ss e acts m r,
+  check_closures (snd (run_stmts ss e)) acts m r = check (compile_reqs ss e) acts m.
+Proof. exact closures_are_model_reqs. Qed.
+Print Assumptions C01_closures_are_model_reqs.
 
 (* weighted discrete choice: random.choices on cumulative weights returns index i with
    probability w_i / sum(w), and never an index outside the list *)
@@ -141,4 +180,23 @@ Example C01_example :
   Qred (mass (fun x => Nat.eqb (snd x) 2) (generate_inner ex_g [6; 2]%nat ex_rs 3)) = 127 # 729 /\
   Qred (rejmass (generate_inner ex_g [6; 2]%nat ex_rs 3)) = 6448 # 19683 /\
   length (paths (generate_inner ex_g [6; 2]%nat ex_rs 1)) = 36%nat.
+Proof. vm_compute. repeat split; reflexivity. Qed.
+
+(* non-vacuity of the new hypotheses and of requirement capture:  x = A; require x < 3; x = B  on a sample
+   with A = 1, B = 5, then  require x < 3; x = 0: the first closure says True and the second False (capture-time
+   bindings A and B) although the namespace they start from holds garbage; late binding (x = 0 at the end) would
+   say True for both, so the check with both enforced fails only under capture-time binding *)
+Definition ex_prog : list pstmt :=
+  [PAssign 0%nat (BNode 0); PRequire (1#2) (NLt (NName 0%nat) (NConst (VZ 3))); PAssign 0%nat (BNode 1);
+   PRequire 1 (NLt (NName 0%nat) (NConst (VZ 3))); PAssign 0%nat (BConst (VZ 0))].
+Definition ex_m : memo := [Some (VZ 1); Some (VZ 5)].
+Definition ex_ps : list pending := snd (run_stmts ex_prog []).
+Definition ex_junk : rns := fun _ => VZ 99.
+Example C01_example_capture :
+  good_dagb ex_g = true /\
+  map (fun pd => fst (closure pd ex_m ex_junk)) ex_ps = [true; false] /\
+  late_value (fst (run_stmts ex_prog [])) ex_m (NLt (NName 0%nat) (NConst (VZ 3))) = true /\
+  compile_reqs ex_prog [] = [mkReq (1#2) (CLt (RNode 0) (RConst (VZ 3))); mkReq 1 (CLt (RNode 1) (RConst (VZ 3)))] /\
+  check_closures ex_ps [true; true] ex_m ex_junk = false /\
+  check_closures ex_ps [true; false] ex_m ex_junk = true.
 Proof. vm_compute. repeat split; reflexivity. Qed.
